@@ -2,7 +2,12 @@
    Statements are pinned by coq/statements/C09.json; ./check compares. *)
 From Coq Require Import Bool List NArith ZArith Lia.
 From M Require Isolation.
+From M Require MultiMsg.
+From M Require EmptyMsg.
+From M Require Chunk.
 From M Require Framing2.
+From M Require Fuel.
+From M Require Isolation.
 From M Require ParserModel.
 Import ListNotations.
 
@@ -34,4 +39,25 @@ Theorem C09_inputs_isolated :
 Proof. exact (@Isolation.inputs_isolated). Qed.
 End T_inputs_isolated.
 Definition C09_inputs_isolated := @T_inputs_isolated.C09_inputs_isolated.
+
+Module T_parse_is_local_any. Import MultiMsg. Local Open Scope bool_scope. Local Open Scope Z_scope.
+Import ParserModel Chunk Fuel. Local Open Scope Z_scope.
+Theorem C09_parse_is_local_any :
+  forall d c a0 rest y,
+  mem c = a0 ++ 10%N :: rest -> no_nl a0 ->
+  scpi_parse (upd_mem c (mem c ++ y)) (Z.of_nat (length a0) + 1) d =
+  (let '(c1, r) := scpi_parse c (Z.of_nat (length a0) + 1) d in (upd_mem c1 (mem c1 ++ y), r)).
+Proof. exact (@MultiMsg.parse_is_local_any). Qed.
+End T_parse_is_local_any.
+Definition C09_parse_is_local_any := @T_parse_is_local_any.C09_parse_is_local_any.
+
+Module T_empty_message_silent. Import EmptyMsg. Local Open Scope bool_scope. Local Open Scope Z_scope.
+Import ParserModel Chunk Isolation. Local Open Scope Z_scope.
+Theorem C09_empty_message_silent :
+  forall c t d,
+  mem c = [] -> (t = 10%N \/ t = 13%N) -> 2 <= cap c -> first_output c = true ->
+  E c (fst (input_core c [t] d)) /\ snd (input_core c [t] d) = true.
+Proof. exact (@EmptyMsg.empty_message_silent). Qed.
+End T_empty_message_silent.
+Definition C09_empty_message_silent := @T_empty_message_silent.C09_empty_message_silent.
 
